@@ -34,6 +34,14 @@ func dirtyFloats(n int) []float64 {
 	return d
 }
 
+// scribble overwrites a user-function argument after it has been used: the fd routines document that they
+// protect their evaluation points against functions that modify the slice they are given.
+func scribble(x []float64) {
+	for i := range x {
+		x[i] = 1e9 + float64(i)
+	}
+}
+
 type evalLog struct{ pts []string }
 
 func (l *evalLog) add(x ...[]float64) {
@@ -103,8 +111,15 @@ func genFD(g *vlib.G) {
 								got = fd.Gradient(dst, func(x []float64) float64 {
 									point("f")
 									clog.add(x)
-									return poly(x)
+									v := poly(x)
+									if dirty {
+										scribble(x)
+									}
+									return v
 								}, x, set(true))
+								if bits(x) != bits(x0) {
+									panic(fmt.Sprintf("Gradient modified the caller's x: %v", x))
+								}
 							}
 							explore(t, g, dim == 1, body, func(x *vsched.Exec) string {
 								if bits(got) != bits(want) {
@@ -137,7 +152,11 @@ func genFD(g *vlib.G) {
 									fd.Hessian(got, func(x []float64) float64 {
 										point("f")
 										clog.add(x)
-										return poly(x)
+										v := poly(x)
+										if dirty {
+											scribble(x)
+										}
+										return v
 									}, append([]float64(nil), x0...), set(true))
 								}
 								explore(t, g, false, body, func(x *vsched.Exec) string {
@@ -175,7 +194,10 @@ func genFD(g *vlib.G) {
 										got = fd.CrossLaplacian(func(x, y []float64) float64 {
 											point("f")
 											clog.add(x, y)
-											return f2(x, y)
+											v := f2(x, y)
+											scribble(x)
+											scribble(y)
+											return v
 										}, append([]float64(nil), x0...), append([]float64(nil), y0...), set2(true))
 									}
 									explore(t, g, false, body, func(x *vsched.Exec) string {
@@ -220,6 +242,9 @@ func genFD(g *vlib.G) {
 										point("f")
 										vlib.Atomically(func() { ncon++ })
 										fn(y, x)
+										if dirty {
+											scribble(x)
+										}
 									}, append([]float64(nil), x0...), &fd.JacobianSettings{Formula: fm.f, Step: 1, OriginValue: origin, Concurrent: true})
 								}
 								explore(t, g, false, body, func(x *vsched.Exec) string {
@@ -260,7 +285,9 @@ func genFD(g *vlib.G) {
 							got = fd.Laplacian(func(x []float64) float64 {
 								point("f")
 								clog.add(x)
-								return poly(x)
+								v := poly(x)
+								scribble(x)
+								return v
 							}, append([]float64(nil), x0...), set(true))
 						}
 						explore(t, g, false, body, func(x *vsched.Exec) string {
